@@ -69,9 +69,29 @@ fn rust_string(b: &[u8], mut i: usize) -> Option<(Vec<u8>, usize)> {
     None
 }
 
-fn extract(src: &[u8], out: &mut Vec<Vec<u8>>) {
+/// (input, belongs to a test marked #[ignore])
+fn extract(src: &[u8], out: &mut Vec<(Vec<u8>, bool)>) {
     let mut i = 0;
+    let mut pending_ignore = false;
+    let mut ignored = false;
     while i + 5 < src.len() {
+        if src[i..].starts_with(b"#[test]") {
+            pending_ignore = false;
+            ignored = false;
+            i += 7;
+            continue;
+        }
+        if src[i..].starts_with(b"#[ignore") {
+            pending_ignore = true;
+            i += 8;
+            continue;
+        }
+        if src[i..].starts_with(b"fn ") {
+            ignored = pending_ignore;
+            pending_ignore = false;
+            i += 3;
+            continue;
+        }
         let m = if src[i..].starts_with(b".ok(") {
             4
         } else if src[i..].starts_with(b".err(") {
@@ -85,7 +105,7 @@ fn extract(src: &[u8], out: &mut Vec<Vec<u8>>) {
             j += 1;
         }
         if let Some((s, k)) = rust_string(src, j) {
-            out.push(s);
+            out.push((s, ignored));
             i = k;
         } else {
             i += m;
@@ -93,8 +113,8 @@ fn extract(src: &[u8], out: &mut Vec<Vec<u8>>) {
     }
 }
 
-pub fn corpus() -> &'static Vec<Vec<u8>> {
-    static C: OnceLock<Vec<Vec<u8>>> = OnceLock::new();
+fn load() -> &'static Vec<(Vec<u8>, bool)> {
+    static C: OnceLock<Vec<(Vec<u8>, bool)>> = OnceLock::new();
     C.get_or_init(|| {
         let mut files = vec![];
         walk(Path::new("/repo/rsass/tests"), &mut files);
@@ -105,9 +125,21 @@ pub fn corpus() -> &'static Vec<Vec<u8>> {
             }
         }
         out.sort();
-        out.dedup();
+        // an input used by both an ignored and a live test counts as live
+        out.dedup_by(|b, a| a.0 == b.0);
         out
     })
+}
+
+pub fn corpus() -> &'static Vec<Vec<u8>> {
+    static C: OnceLock<Vec<Vec<u8>>> = OnceLock::new();
+    C.get_or_init(|| load().iter().map(|(b, _)| b.clone()).collect())
+}
+
+/// inputs of tests that are not marked #[ignore] (the ones the repository claims to handle), valid UTF-8 only
+pub fn corpus_live_str() -> &'static Vec<String> {
+    static C: OnceLock<Vec<String>> = OnceLock::new();
+    C.get_or_init(|| load().iter().filter(|(_, ign)| !*ign).filter_map(|(b, _)| String::from_utf8(b.clone()).ok()).collect())
 }
 
 /// corpus inputs that are valid UTF-8, as strings
